@@ -154,10 +154,11 @@ def drive(chk, family, extra=None, name=None):
 
 
 def need_stat(chk, key, least=1):
-    """non-vacuity: the driver must have exercised the situation the property is about"""
-    v = chk.cov.get("driver_stats", {}).get(key, 0)
-    if v < least:
-        raise ToolError(f"driver never exercised '{key}' (got {v}, need {least}): the check would be vacuous")
+    """non-vacuity: the driver must have exercised the situation the property is about.  The requirement is
+    evaluated when the check finishes: a change to the library that makes the situation impossible (never spills,
+    never retries, ...) is first judged by the specification on the events that were recorded -- only a run
+    without any violation can be dismissed as vacuous."""
+    chk.needs.append((key, least))
 
 
 def nth_event(trace, pred, n=1):
